@@ -28,6 +28,7 @@ type Program struct {
 	funcIndex map[string]*ssa.Function
 	typesPkgs map[string]*types.Package
 	qualIndex map[string]*FuncContract
+	EdgeCovers bool
 }
 
 func loadProgram(root, modPath string, pkgPaths []string, tags string) (*Program, error) {
